@@ -31,6 +31,7 @@ Proof.
   - intros x m' Hnone. unfold upd. destruct (x =? i) eqn:E.
     + apply N.eqb_eq in E. subst. congruence.
     + congruence.
+  - intros x' Hx'. left. eauto.
 Qed.
 Lemma fresh_wset w i n n' : Fresh w -> w_nodes w i = Some n -> Fresh (wset w i n').
 Proof.
@@ -45,6 +46,7 @@ Proof.
     + apply N.eqb_eq in E. subst. rewrite (F (w_next w)) in Hm by lia. discriminate.
     + exists m. split; auto. apply node_kept_refl.
   - intros x m' Hnone. unfold upd. destruct (x =? w_next w) eqn:E; [intros [= <-]; auto|congruence].
+  - intros x' Hx'. left. eauto.
 Qed.
 Lemma fresh_walloc w n : Fresh w -> Fresh (walloc w n).
 Proof.
@@ -58,6 +60,7 @@ Proof.
   intros H. constructor; cbn; auto; try lia.
   - intros x n Hn. exists n. split; auto. apply node_kept_refl.
   - intros x n' H1 H2. congruence.
+  - intros x' Hx'. left. apply (in_map mview) in Hx'. rewrite H in Hx'. apply in_map_iff in Hx' as (x & E & Hx). eauto.
 Qed.
 Lemma fresh_wmodels w ms : Fresh w -> Fresh (wmodels w ms).
 Proof. intros F x Hx. apply F. exact Hx. Qed.
@@ -67,6 +70,7 @@ Proof.
   intros <-. constructor; cbn; auto; try lia.
   - intros x n Hn. exists n. split; auto. apply node_kept_refl.
   - intros x n' H1 H2. congruence.
+  - intros x' Hx'. left. eauto.
 Qed.
 
 (* a node that is new with respect to w may be rewritten freely as long as its set stays empty *)
@@ -464,5 +468,22 @@ Lemma ff_e_create_copied h other : ff (e_create_copied_sub_element T LATEST h ot
 Proof. unfold e_create_copied_sub_element, raw_create_copied_sub_element. ff_tac. Qed.
 Lemma ff_e_create_copied_at h other pos : ff (e_create_copied_sub_element_at T LATEST h other pos).
 Proof. unfold e_create_copied_sub_element_at, raw_create_copied_sub_element_at. ff_tac. Qed.
+
+(* ---------- a new model ---------- *)
+Lemma ff_new_model attrs : ff (new_model T attrs).
+Proof.
+  intros w r w' F H. unfold new_model in H.
+  destruct (et_new T (autosar_element T)) as [ty| |]; destruct (elem T (autosar_element T)) as [ed| |]; try discriminate.
+  injection H as <- <-. split.
+  - constructor; cbn; try lia; auto.
+    + intros x n Hn. unfold upd. destruct (x =? w_next w) eqn:E.
+      * apply N.eqb_eq in E. subst. rewrite (F (w_next w)) in Hn by lia. discriminate.
+      * exists n. split; auto. apply node_kept_refl.
+    + intros x n' Hnone. unfold upd. destruct (x =? w_next w) eqn:E; [intros [= <-]; auto|congruence].
+    + intros x' Hx'. apply in_app_iff in Hx' as [Hx'|[<-|[]]]; [left; eauto|right]. cbn. split; auto. apply F. lia.
+  - intros x Hx. cbn in *. unfold upd. destruct (x =? w_next w) eqn:E.
+    + apply N.eqb_eq in E. lia.
+    + apply F. lia.
+Qed.
 
 End Ops.
